@@ -167,6 +167,21 @@ Example C06_flatten_remainder_example :
                                 (FId (u "extra"), EMap [(EStr (u "x-extra"), EStr (u "1"))])]).
 Proof. exact flatten_remainder_example. Qed.
 
+(* (7) has_default (structs.rs): a member whose schema default is not EXACTLY the intrinsic default of its Rust type
+   (null / [] / {} / false / the number zero / "" for Option, Unit, Vec, Map, bool, integers, String) keeps its default
+   (state Default(v): own default function, validated by check_defaults); floats are never intrinsic.  (A seeded change
+   replaced the exact zero test by `v.abs() < f64::EPSILON` and extended it to floats.) *)
+Theorem C06_has_default_exact : forall d v,
+  has_default (Some d) (Some v) = if intrinsic_default d v then POptional else PDefault v.
+Proof. exact has_default_spec. Qed.
+
+Theorem C06_has_default_float_kept : forall n v, has_default (Some (DFloat n)) (Some v) = PDefault v.
+Proof. exact has_default_float. Qed.
+
+Theorem C06_has_default_tiny_integer_kept : forall n q, Z.eqb (Qnum q) 0 = false ->
+  has_default (Some (DInteger n)) (Some (JFlt q)) = PDefault (JFlt q).
+Proof. exact has_default_integer_nonzero. Qed.
+
 (* the former refutation witnesses, now regression examples of the repaired behaviour:
    String x 5, Vec<u8> x [300], S3(maxLength 3) x "toolong", IEnum[1,2] x 7, NonZeroU32 x 0 are
    rejected; (i64,) x [3] and W{k, #[flatten] extra} x {"k":1} render to typed expressions *)
